@@ -57,6 +57,7 @@ def forward_units(prop):
 FAMILIES = {
     "C05": ["op"],
     "C06": ["op"],
+    "C07": ["slice"],
     "C25": ["monitor"],
     "C26": ["monitor"],
     "C27": ["monitor"],
@@ -81,6 +82,8 @@ def units_for(prop, tier):
         us += forward_units(prop)
     if "class" in fams:
         us += class_units(prop)
+    if "slice" in fams:
+        us.append({"runner": "slicelemma", "prop": prop, "id": "reactivex/operators/_slice.py::slice_"})
     if "frame" in fams:
         us.append({"runner": "frame", "prop": prop, "id": f"frame-conditions/{prop}"})
     if "subscribe" in fams:
